@@ -20,6 +20,7 @@
 -/
 import YarlProofs.Lemmas.HumanLemmas
 import YarlProofs.C12Readback
+import YarlProofs.Lemmas.EagerLemmas
 set_option linter.unusedVariables false
 namespace Yarl
 
@@ -565,6 +566,29 @@ theorem requoteOpt_human (e : Env) (x y : Option Str) (hx : UText x)
       simp only [Bool.false_eq_true, ↓reduceIte]
       exact C18_user_roundtrip e s r h1 h2 hq
 
+/-- QUOTER does not turn a non-empty text without lone surrogates into "" -/
+theorem quoter_ne_nil (e : Env) (s : Str) (hs : PyStr s) (hn : NoSurrogate s) (hne : s ≠ []) :
+    q e Gen.QUOTER s ≠ [] := by
+  unfold q
+  rw [QsLemmas.run_eq_cOut _ (by decide : Gen.QUOTER ∈ Gen.allQuoters) e.b s hs]
+  cases s with
+  | nil => exact absurd rfl hne
+  | cons c r =>
+    have hc : isSurrogate c = false := hn c (by simp)
+    have : stripSurr (c :: r) = c :: stripSurr r := by simp [stripSurr, hc]
+    rw [this]
+    exact EagerLemmas.cOut_cons_ne_nil _ c _ (hs c (by simp)) hc
+
+/-- `(REQUOTER(username) or None)` (commit 2fdb38c) keeps the quoted user of a non-empty text -/
+theorem orNone_quoted_user (e : Env) (user : Option Str) (hu : UText user) (hune : ∀ s, user = some s → s ≠ []) :
+    (user.map (q e Gen.QUOTER)).bind (fun s => if s.isEmpty then none else some s) = user.map (q e Gen.QUOTER) := by
+  cases user with
+  | none => rfl
+  | some s =>
+    have := quoter_ne_nil e s (hu s rfl).1 (hu s rfl).2 (hune s rfl)
+    simp only [Option.map_some, Option.bind_some]
+    rw [isEmpty_false this]; rfl
+
 theorem encodeUrl_userinfo (e : Env) (sc : Str) (user pw usr pw' : Option Str) (h rp rf : Str)
     (vs : ValidScheme sc) (ph : PlainHost h)
     (hu : UText user) (hune : ∀ s, user = some s → s ≠ []) (hw : UText pw)
@@ -615,7 +639,7 @@ theorem encodeUrl_userinfo (e : Env) (sc : Str) (user pw usr pw' : Option Str) (
   rw [splitUrl_auth e.o sc _ rp rf vs hauth h35 h63 hc1 hc2]
   simp only [bind, Except.bind, pure, Except.pure, hnlne, Bool.false_eq_true, ↓reduceIte, h64,
     Bool.or_true, Bool.true_or, hsplit, encodeHost_plain e.o h false ph, hnn, h91, hn91', Bool.false_and,
-    requoteOpt_human e user usr hu hq1, requoteOpt_human e pw pw' hw hq2',
+    requoteOpt_human e user usr hu hq1, requoteOpt_human e pw pw' hw hq2', orNone_quoted_user e user hu hune,
     ← makeNetloc_encode (q e Gen.QUOTER) (q_nil e _), List.isEmpty_cons, Bool.not_false,
     Bool.true_and, List.isEmpty_nil, hbne]
 
